@@ -339,7 +339,7 @@ def body(chk: core.Check):
     for label, d in diffs.items():
         if label == "same-short-resource-name" and sat_models:
             continue
-        chk.violation(f"replay:{label}", f"responses differ across hash seeds: {d}", {"kind": "replay", "label": label, "seeds": seeds})
+        chk.violation(f"replay:{label}", f"responses differ across processes (hash seed / working directory): {d}", {"kind": "replay", "label": label, "seeds": seeds})
     if not diffs:
         for u in unknown_raw:
             chk.fail_inconclusive("unclassified order-dependent site: " + u)
